@@ -4,6 +4,11 @@
 //! for TLC to validate; `replay <family>` executes spec-generated behaviours.
 //! The harness records observations; it never decides a verdict.
 
+mod drv_bits;
+mod drv_build;
+mod msgen;
+mod special;
+mod special_msm;
 mod drv_frame;
 mod frames;
 mod util;
@@ -24,6 +29,9 @@ fn main() {
         ("record", "scan") => drv_frame::rec_scan(&a, &mut out),
         ("record", "stream") => drv_frame::rec_stream(&a, &mut out),
         ("record", "corrupt") => drv_frame::rec_corrupt(&a, &mut out),
+        ("record", "bits") => drv_bits::rec_bits(&a, &mut out),
+        ("record", "build") => drv_build::rec_build(&a, &mut out),
+        ("record", "history") => drv_build::rec_history(&a, &mut out),
         _ => {
             eprintln!("usage: rtcm_conf record|replay <family> key=value...");
             std::process::exit(2);
